@@ -159,3 +159,25 @@ def where_of(t, default="?"):
     if isinstance(t, T.Term) and t.origin:
         return t.origin
     return default
+
+
+_SIGS = {
+    # interface method -> names of the parameters that may be passed positionally (after self)
+    "step": ["state"],
+    "estimate_error_norm": ["state", "previous", "proposed"],
+    "linearize": ["rv", "state"],
+    "init": ["t", "u"],
+    "interpolate_fwd": [],
+    "interpolate_fwd_at_t1": [],
+    "userfriendly_output": [],
+}
+
+
+def named(m, name=None):
+    """Arguments of an opaque method call by parameter name, whether passed positionally or by keyword."""
+    meth = m.args[1]
+    params = _SIGS.get(meth, [])
+    out = dict(m.kwargs)
+    for p, v in zip(params, m.args[2:]):
+        out.setdefault(p, v)
+    return out if name is None else out.get(name)
